@@ -44,9 +44,9 @@ def gen_geo(tier, seed):
             for h in HEIGHTS:
                 yield {'ell': ell, 'lat': lat, 'h': h, 'lons': lo, 'kind': 'float'}
     for ell in ('grs80', 'intl24'):
-        for lat in (-89.5, -37.8, 0.0, 0.3, 60.25, 90.0):
-            for kind in cfg.INTYPES[1:]:
-                yield {'ell': ell, 'lat': lat, 'h': 39.6514, 'lons': [-179.5, 0.0, 0.15, 144.97], 'kind': kind}
+        for lat in (-89.5, -37.8, -0.3, 0.0, 0.3, 60.25, 90.0):
+            for kind in cfg.INTYPES[1:] + cfg.NUMFORMS:
+                yield {'ell': ell, 'lat': lat, 'h': 39.6514, 'lons': [-179.5, -0.45, 0.0, 0.15, 144.97], 'kind': kind}
 
 
 def back_check(rec, ell, xyz, one, site_prefix, co):
@@ -86,7 +86,7 @@ def ev_geo(case, rec):
             except Exception:
                 rec.skip('input object of class %s could not be built (C08)' % kind)
                 continue
-        st, r = rec.call(llh2xyz, la, lo, h, ELLS[ell])
+        st, r = rec.call(llh2xyz, cfg.unwrap(la), cfg.unwrap(lo), h, ELLS[ell])
         co = {'ell': ell, 'lat': lat, 'lon': lon, 'h': h}
         if st != 'ok':
             rec.fail('llh2xyz raised', site='convert:llh2xyz', observed=r, case=one, coords=co)
